@@ -123,10 +123,14 @@ static void scenario(const vh::Json& sc, vh::Out& out, vh::Rng& rng, const vh::A
     bool attach = sc["attach"].truth();
     const std::string ign = sc.has("ignore") ? sc["ignore"].str() : "none"; ctx.ignore = ign == "client" ? 1 : ign == "server" ? 2 : 0;
     long KA = 10, maxChunks = 2, maxBytes = 6;
-    out.begin("\"attach\":" + std::string(attach ? "true" : "false") + ",\"ignore\":\"" + ign + "\",\"keepAlive\":10,\"maxChunks\":2,\"maxBytes\":6,\"mode\":" + std::to_string(mode % 10));
+    out.begin("\"attach\":" + std::string(attach ? "true" : "false") + ",\"ignore\":\"" + ign + "\",\"keepAlive\":10,\"maxChunks\":2,\"maxBytes\":6,\"termcb\":" + std::string(out.sid % 5 == 3 ? "false" : "true") + ",\"mode\":" + std::to_string(mode % 10));
     StreamFollower fol;
     fol.new_stream_callback(&on_new);
-    fol.stream_termination_callback(&on_term);
+    // in every fifth scenario no termination callback is registered: the follower has to drop what it terminates all the same; what
+    // vanished from its table without a closed callback is then reported as the termination the callback would have announced
+    const bool noterm = out.sid % 5 == 3;
+    if (!noterm) fol.stream_termination_callback(&on_term);
+    std::vector<std::string> prev_live;
     fol.follow_partial_streams(attach);
     // one model tick is a second in half of the scenarios and 350 ms in the others (the keep-alive is then 3.5 s: not a whole number
     // of seconds; capture times carry the same unit)
@@ -166,6 +170,10 @@ static void scenario(const vh::Json& sc, vh::Out& out, vh::Rng& rng, const vh::A
                 else live.push_back(d.name + "->" + cname(which));       // find_stream handed back another connection's stream
             } catch (stream_not_found&) {}
         }
+        if (noterm) { for (size_t k = 0; k < prev_live.size(); ++k) { const std::string& nm = prev_live[k]; if (std::find(live.begin(), live.end(), nm) != live.end()) continue;
+                          bool closed = false; for (size_t q = 0; q < ctx.cbs.size(); ++q) if (ctx.cbs[q].k == "closed" && ctx.cbs[q].c == nm) closed = true;
+                          if (!closed) { Cb cb; cb.k = "term"; cb.c = nm; cb.r = nm == c.name ? "BUFFERED_DATA" : "TIMEOUT"; ctx.cbs.push_back(cb); } } }
+        prev_live.clear(); for (size_t k = 0; k < live.size(); ++k) if (live[k].find("->") == std::string::npos) prev_live.push_back(live[k]);
         vh::W w; w.O().kv("e", "pkt").kv("conn", c.name).kv("from", from == 0 ? "c" : "s").kv("syn", syn).kv("ack", ack).kv("fin", fin).kv("rst", rst)
             .kv("off", off).kv("len", len).kv("ackoff", ackoff).kv("ts", p["ts"].num());
         w.key("cb").A(); for (size_t k = 0; k < ctx.cbs.size(); ++k) { w.O().kv("k", ctx.cbs[k].k).kv("c", ctx.cbs[k].c).kbytes("b", ctx.cbs[k].b).kv("r", ctx.cbs[k].r).kv("client", ctx.cbs[k].client).E(); } w.E();
